@@ -29,6 +29,8 @@ BOUND = {
     "quick": "3 feature-rich forms + catalogue forms (x2 decorations) + L(4,3): every transformation at every site",
     "thorough": "same plus every ordered pair of transformations (first sites) on the rich forms and catalogue",
 }
+# as-built additions to the bound (kept next to BOUND so that the evidence reports them)
+BOUND = {k: v + "; plus: " + 'truth-value spellings for the settings flags omit_instanceID / allow_choice_duplicates / clean_text_values and for the disabled column; 5 rich forms' for k, v in BOUND.items()}
 
 RICH = [
     {"survey": [
